@@ -57,6 +57,18 @@ impl SyscallState {
         self.brk_length = length;
     }
 
+    /// Verification hook: put one pipe with the given buffered bytes into the bookkeeping
+    pub fn verif_add_pipe(&mut self, read_end: u64, write_end: u64, content: Vec<u8>) {
+        self.pipes_read_ends.insert(read_end, write_end);
+        self.pipes_write_ends.insert(write_end, read_end);
+        self.pipe_contents.insert(read_end, content);
+    }
+
+    /// Verification hook: the bytes buffered for a read end
+    pub fn verif_pipe_content(&self, read_end: u64) -> Option<Vec<u8>> {
+        self.pipe_contents.get(&read_end).cloned()
+    }
+
     /// Verification hook: (write end -> read end, read end -> write end, read end -> buffered bytes), sorted by key
     #[allow(clippy::type_complexity)]
     pub fn verif_pipes(&self) -> (Vec<(u64, u64)>, Vec<(u64, u64)>, Vec<(u64, Vec<u8>)>) {
